@@ -1,7 +1,8 @@
 (* C17 — Metric log is searchable, bounded, and survives truncation at any byte.
    Property theorems only; every proof is `exact <lemma>` from Proofs/. *)
-From SG Require Import Base.Prelude Base.GoInt Model.MLBytes Model.MLDecimal Model.MetricLog
-  Proofs.MLBytesProofs Proofs.MetricLogLineProofs Proofs.MetricLogBoundProofs.
+From SG Require Import Base.Prelude Base.GoInt Model.MLBytes Model.MLDecimal Model.MetricLog Model.MetricLogSpec
+  Proofs.MLBytesProofs Proofs.MetricLogLineProofs Proofs.MetricLogBoundProofs Proofs.MetricLogWriterProofs
+  Proofs.MetricLogMainProofs Proofs.MetricLogExamples.
 
 (* every item the writer can be handed (Go field ranges; resource name and time string without
    '|' and LF - CR is harmless) is read back unchanged from its line *)
@@ -20,6 +21,49 @@ Theorem C17_file_bound : forall c t0 ops, 1 <= c_max_files c ->
   lenZ (w_fs (y_w (fst (run c (sys_init c t0) ops)))) <= c_max_files c.
 Proof. exact file_bound. Qed.
 
+(* Search is complete and sound.  For every configuration (size limit 1..2^62, any file-count
+   limit, any zone; creation time not before the epoch in local time), every history of writes
+   and queries in any interleaving - writes with any timestamps (older seconds are ignored by the
+   writer, as in the code), batches of valid items; queries of both forms with any arguments, all
+   on ONE searcher whose position cache is threaded through - every query returns exactly what
+   Model/MetricLogSpec.v prescribes for the ghost state at that moment (`outs_ok`):
+   FindByTimeAndResource = the retained items of seconds [begin,end] and of the resource, in log
+   order, each once (up to maxItemAmount); FindFromTimeWithMaxLines = a prefix of the retained
+   items from second `begin`, complete unless the line limit was reached.  `retained` is the
+   content of the files that survive the rolls (size / day) and removals of the ghost writer. *)
+Theorem C17_search_complete_sound : forall c t0 ops, good_cfg c t0 -> Forall good_op ops ->
+  outs_ok c (g_init t0) ops (snd (run c (sys_init c t0) ops)).
+Proof. exact search_complete_sound. Qed.
+
+(* ... the retained items are in timestamp order (so are the results, which are sub-lists of them) *)
+Theorem C17_retained_in_order : forall c t0 ops, good_cfg c t0 -> Forall good_op ops ->
+  sorted_sec (retained (g_run c (g_init t0) ops)).
+Proof. exact retained_in_order. Qed.
+
+(* ... and they are a suffix of the list of all accepted (not ignored) items: nothing is
+   duplicated, reordered or invented by rolls and removals *)
+Theorem C17_retained_suffix_of_accepted : forall c t0 ops,
+  exists k, retained (g_run c (g_init t0) ops) = skipn k (accepted t0 ops).
+Proof. exact retained_suffix. Qed.
+
+(* Truncation.  After any such history, with the last data file (which = false) or its idx file
+   (which = true) cut at ANY byte offset, a query (any cache state the history left behind)
+   returns only retained items; for a data cut exactly what the specification prescribes for the
+   retained items whose line lies wholly before the cut (`retained_cut`); for an idx cut either
+   nothing or the full answer, and the full answer whenever some retained second >= begin has its
+   idx entry wholly before the cut (or lives in an earlier file).  `search` is a total function
+   returning a list: there is no error outcome in the model (unreadable idx = next file). *)
+Theorem C17_truncation_safe : forall c t0 ops which cut q, good_cfg c t0 -> Forall good_op ops ->
+  let y := fst (run c (sys_init c t0) ops) in
+  let g := g_run c (g_init t0) ops in
+  let res := snd (search (cut_last which cut (w_fs (y_w y))) (y_s y) q) in
+  incl res (retained g) /\
+  (if which
+   then (res = [] \/ find_ok (retained g) q res) /\
+        ((exists s, In s (idx_visible_secs cut g) /\ q_begin q / 1000 <= s) -> find_ok (retained g) q res)
+   else find_ok (retained_cut cut g) q res).
+Proof. exact truncation_safe. Qed.
+
 Example C17_line_roundtrip_nonvacuous :
   valid_item (mkItem 1700000001000 [50;48] [97;32;98] 1 2 3 18446744073709551615 5 6 4294967295 (-2147483648)).
 Proof. unfold valid_item, lim64, lim32, half32, bar. cbn. repeat split; try lia; intuition lia. Qed.
@@ -31,6 +75,38 @@ Example C17_file_bound_nonvacuous :
   map (fun f => (f_day f, f_seq f)) (w_fs (y_w (fst (run c (sys_init c 1700000000000) ops)))) = [(19675, 2); (19675, 3)].
 Proof. vm_compute. reflexivity. Qed.
 
+
+(* the histories are defined (and evaluated) in Proofs/MetricLogExamples.v *)
+(* a history with a same-second second batch, size rolls, removals (2 files kept), and five
+   queries on the one searcher, interleaved with the writes *)
+Example C17_search_complete_sound_nonvacuous :
+  good_cfg ex_cfg 1700000000000 /\ Forall good_op ex_ops /\
+  map (map (fun it => (i_ts it, i_res it))) (snd (run ex_cfg (sys_init ex_cfg 1700000000000) ex_ops)) =
+  [[]; []; [(1700000001000, [97]); (1700000001000, [98]); (1700000001500, [97])]; []; [];
+   [(1700000002000, [97]); (1700000003000, [98])]; [(1700000003000, [98])]; []; [];
+   [(1700000003000, [98]); (1700000004000, [98])]; [(1700000003000, [98])]] /\
+  map (fun f => (f_day f, f_seq f)) (w_fs (y_w (fst (run ex_cfg (sys_init ex_cfg 1700000000000) ex_ops)))) =
+  [(19675, 2); (19675, 3)].
+Proof. exact search_example. Qed.
+
+Example C17_truncation_safe_nonvacuous :
+  let y := fst (run ex_cfg2 (sys_init ex_cfg2 1700000000000) ex_ops2) in
+  let fs := w_fs (y_w y) in
+  good_cfg ex_cfg2 1700000000000 /\ Forall good_op ex_ops2 /\
+  map (fun f => (lenZ (f_data f), lenZ (f_idx f))) fs = [(136, 48)] /\
+  map i_ts (snd (search (cut_last false 135 fs) s_init (QFrom 0 100))) =
+    [1700000001000; 1700000001000; 1700000002000] /\
+  map i_ts (snd (search fs s_init (QFrom 0 100))) =
+    [1700000001000; 1700000001000; 1700000002000; 1700000003000] /\
+  map i_ts (snd (search (cut_last true 47 fs) s_init (QFrom 1700000003000 100))) = [] /\
+  map i_ts (snd (search (cut_last true 47 fs) s_init (QFrom 1700000002000 100))) =
+    [1700000002000; 1700000003000].
+Proof. exact truncation_example. Qed.
+
 Print Assumptions C17_line_roundtrip.
 Print Assumptions C17_file_roundtrip.
 Print Assumptions C17_file_bound.
+Print Assumptions C17_search_complete_sound.
+Print Assumptions C17_retained_in_order.
+Print Assumptions C17_retained_suffix_of_accepted.
+Print Assumptions C17_truncation_safe.
